@@ -23,6 +23,30 @@ def bootstrap_repo() -> str:
 
 
 _WAL = None
+_SKIP: set[str] | None = None
+
+
+def text_id(text: str) -> str:
+    import hashlib
+
+    return hashlib.sha1(text.encode("utf-8", "replace")).hexdigest()[:20]
+
+
+def quarantined(text: str) -> bool:
+    """Inputs that killed the interpreter in an earlier attempt of this shard."""
+    global _SKIP
+    if _SKIP is None:
+        _SKIP = set()
+        path = os.environ.get("NIMA_SKIP_FILE")
+        if path and os.path.exists(path):
+            with open(path) as fh:
+                _SKIP = set(json.load(fh))
+    return bool(_SKIP) and text_id(text) in _SKIP
+
+
+def wal_text(text: str) -> None:
+    """Write-ahead log of the exact text handed to the library next."""
+    wal("T " + json.dumps(text))
 
 
 def wal(case_id: str) -> None:
@@ -33,7 +57,7 @@ def wal(case_id: str) -> None:
         if not path:
             return
         _WAL = open(path, "a", buffering=1)
-    _WAL.write(case_id.replace("\n", "\\n")[:2000] + "\n")
+    _WAL.write(case_id.replace("\n", "\\n")[:20000] + "\n")
 
 
 def main(argv: list[str]) -> int:
